@@ -233,9 +233,9 @@ def multiline(s, quote_with=("'", "'")):
                 ),
                 s.splitlines(),
             )
-        )[
-            : -len(" \\\n")
-        ],  # drop only the continuation appended after the last line, never characters of the text itself
+        )[: -len(" \\\n")].rstrip(
+            " \n"
+        ),  # drop the continuation appended after the last line, then trailing blanks (as before); never a backslash of the text
     )
 
 
